@@ -8,13 +8,13 @@ From GocqlV Require Import Lib.Base C15.Model C15.Spec C15.Proofs1.
 Set Implicit Arguments.
 
 Section P3.
-Variables (R Q : Type) (q : Q) (auto : bool) (posf : nat -> Z).
+Variables (R M Q : Type) (q : Q) (auto : bool) (posf : nat -> Z) (mm : meta_mode M) (nr : nat).
 
-Notation machT := (mach R Q).
-Notation fetch := (fetch q auto posf).
-Notation scan_go := (scan_go q auto posf).
-Notation scan := (scan q auto posf).
-Notation async := (async q auto posf).
+Notation machT := (mach R M Q).
+Notation fetch := (fetch q auto posf mm nr).
+Notation scan_go := (scan_go q auto posf mm nr).
+Notation scan := (scan q auto posf mm nr).
+Notation async := (async q auto posf mm nr).
 
 (* fetchAsync is only called on a page without error that has a next page *)
 Definition wf (m : machT) : Prop :=
@@ -32,7 +32,7 @@ Proof.
   - assert (X : fetch m = m) by (unfold Model.fetch; rewrite Ef; reflexivity). rewrite X. exact X.
   - destruct (i_next (m_cur m)) as [[ps np]|] eqn:En.
     + assert (X : exists it s l, fetch m = mkMach (m_cur m) (m_oncea m) (Some it) s (m_reqs m ++ l)).
-      { unfold Model.fetch. rewrite Ef, En. destruct (exec q auto posf ps (m_srv m)) as [[it s] l]. eauto. }
+      { unfold Model.fetch. rewrite Ef, En. destruct (exec q auto posf mm ps nr (m_srv m)) as [[it s] l]. eauto. }
       destruct X as (it & s & l & X). rewrite X. reflexivity.
     + assert (X : fetch m = m) by (unfold Model.fetch; rewrite Ef, En; reflexivity). rewrite X. exact X.
 Qed.
@@ -40,27 +40,27 @@ Qed.
 Lemma fetch_keeps (m : machT) : m_cur (fetch m) = m_cur m /\ m_oncea (fetch m) = m_oncea m.
 Proof.
   unfold Model.fetch. destruct (m_fetched m); [auto|]. destruct (i_next (m_cur m)) as [[ps np]|]; [|auto].
-  destruct (exec q auto posf ps (m_srv m)) as [[it s] l]. auto.
+  destruct (exec q auto posf mm ps nr (m_srv m)) as [[it s] l]. auto.
 Qed.
 
 Lemma fetch_bump (m : machT) : fetch (bump m) = bump (fetch m).
 Proof.
   destruct m as [[e p rows pst nx] o f s r]. unfold Model.fetch, bump, set_cur. cbn. destruct f; [reflexivity|].
   destruct nx as [[ps np]|]; cbn; [|reflexivity].
-  destruct (exec q auto posf ps s) as [[it s'] l]. reflexivity.
+  destruct (exec q auto posf mm ps nr s) as [[it s'] l]. reflexivity.
 Qed.
 
 Lemma fetch_set_oncea (m : machT) : fetch (set_oncea m) = set_oncea (fetch m).
 Proof.
   destruct m as [[e p rows pst nx] o f s r]. unfold Model.fetch, set_oncea. cbn. destruct f; [reflexivity|].
   destruct nx as [[ps np]|]; cbn; [|reflexivity].
-  destruct (exec q auto posf ps s) as [[it s'] l]. reflexivity.
+  destruct (exec q auto posf mm ps nr s) as [[it s'] l]. reflexivity.
 Qed.
 
 Lemma switch_fetch_oncea (m : machT) st np : i_next (m_cur m) = Some (st, np) -> m_oncea (switch (fetch m)) = false.
 Proof.
   intro Hn. unfold Model.fetch, switch. destruct (m_fetched m) eqn:Ef; [rewrite Ef; reflexivity|].
-  rewrite Hn. destruct (exec q auto posf st (m_srv m)) as [[it s] l]. reflexivity.
+  rewrite Hn. destruct (exec q auto posf mm st nr (m_srv m)) as [[it s] l]. reflexivity.
 Qed.
 
 Lemma wf_scan_go pre : forall f (m : machT) o m', enough f m -> wf m -> scan_go pre f m = (o, m') -> wf m'.
@@ -98,7 +98,7 @@ Lemma rel_scan (a b : machT) oa a' ob b' : rel a b -> scan a = (oa, a') -> scan 
 Proof.
   intros [[E W]|(A1 & A2 & A3 & A4 & A5 & A6)] Ha Hb.
   - subst. rewrite Ha in Hb. inversion Hb; subst. split; [reflexivity|]. left. split; [reflexivity|].
-    eapply wf_scan_go; [apply enough_mu|exact W|exact Ha].
+    exact (@wf_scan_go true (mu b + 2) b ob b' (enough_mu b) W Ha).
   - unfold Model.scan in Ha, Hb.
     replace (mu a + 2)%nat with (S (mu a + 1)) in Ha by lia. replace (mu b + 2)%nat with (S (mu b + 1)) in Hb by lia.
     assert (Ea : enough (S (mu a + 1)) a) by (unfold enough; split; intros; lia).
@@ -111,7 +111,7 @@ Proof.
       assert (A4b : i_err (m_cur b) = None) by (rewrite <- A3; exact A4).
       assert (E1 : enough (mu a + 1) (switch (fetch a))) by (eapply enough_switch; eauto).
       assert (E2 : enough (mu b + 1) (switch (fetch b))) by (eapply enough_switch; eauto).
-      rewrite <- A6 in Hb, E2. rewrite (@scan_go_fuel R Q q auto posf true _ _ _ E2 E1) in Hb. rewrite Ha in Hb. inversion Hb; subst.
+      rewrite <- A6 in Hb, E2. rewrite (@scan_go_fuel R M Q q auto posf mm nr true _ _ _ E2 E1) in Hb. rewrite Ha in Hb. inversion Hb; subst.
       split; [reflexivity|]. left. split; [reflexivity|].
       eapply wf_scan_go; [exact E1| |exact Ha]. intro X. rewrite (switch_fetch_oncea _ Hn) in X. discriminate.
     + inversion Ha; subst; clear Ha. inversion Hb; subst; clear Hb. split; [reflexivity|].
@@ -133,30 +133,51 @@ Fixpoint ncalls (ls : list label) : nat :=
   end.
 
 Theorem sched_confluent : forall ls (a b : machT), rel a b ->
-  fst (sched q auto posf a ls) = fst (calls scan (ncalls ls) b)
-  /\ rel (snd (sched q auto posf a ls)) (snd (calls scan (ncalls ls) b)).
+  fst (sched q auto posf mm nr a ls) = fst (calls scan (ncalls ls) b)
+  /\ rel (snd (sched q auto posf mm nr a ls)) (snd (calls scan (ncalls ls) b)).
 Proof.
   induction ls as [|l ls IH]; intros a b Hr; cbn [sched ncalls calls].
   - cbn. auto.
   - assert (Call : forall oa a1, scan a = (oa, a1) ->
-       fst (let '(os, m2) := sched q auto posf a1 ls in ([oa] ++ os, m2))
+       fst (let '(os, m2) := sched q auto posf mm nr a1 ls in ([oa] ++ os, m2))
        = fst (let '(o, m1) := scan b in let '(os, m2) := calls scan (ncalls ls) m1 in (o :: os, m2))
-       /\ rel (snd (let '(os, m2) := sched q auto posf a1 ls in ([oa] ++ os, m2)))
+       /\ rel (snd (let '(os, m2) := sched q auto posf mm nr a1 ls in ([oa] ++ os, m2)))
               (snd (let '(o, m1) := scan b in let '(os, m2) := calls scan (ncalls ls) m1 in (o :: os, m2)))).
     { intros oa a1 Ha. destruct (scan b) as [ob b1] eqn:Hb.
       destruct (rel_scan Hr Ha Hb) as [Eo Hr1]. subst ob. specialize (IH a1 b1 Hr1).
-      destruct (sched q auto posf a1 ls) as [os1 a2]. destruct (calls scan (ncalls ls) b1) as [os2 b2].
+      destruct (sched q auto posf mm nr a1 ls) as [os1 a2]. destruct (calls scan (ncalls ls) b1) as [os2 b2].
       cbn in *. destruct IH as [I1 I2]. split; [f_equal; exact I1|exact I2]. }
     destruct l; cbn [step].
     + destruct (scan a) as [oa a1] eqn:Ha. apply Call. reflexivity.
     + rewrite map_scan_scan. destruct (scan a) as [oa a1] eqn:Ha. apply Call. reflexivity.
     + specialize (IH (async a) b (rel_async Hr)).
-      destruct (sched q auto posf (async a) ls) as [os1 a2]. cbn in *. exact IH.
+      destruct (sched q auto posf mm nr (async a) ls) as [os1 a2]. cbn in *. exact IH.
 Qed.
 
-Lemma rel_refl_open ps s : rel (open q auto posf ps s) (open q auto posf ps s).
+(* the loop of SliceMap with the prefetch firing between its Scan calls *)
+Lemma drain_sched_rel : forall fuel (a b : machT) fires, rel a b ->
+  match drain_sched q auto posf mm nr fuel a fires, drain scan fuel b with
+  | Some (la, a'), Some (lb, b') => la = lb /\ rel a' b'
+  | None, None => True
+  | _, _ => False
+  end.
 Proof.
-  left. split; [reflexivity|]. intro X. destruct (open_spec q auto posf ps s) as (_ & O2 & _). congruence.
+  induction fuel as [|fuel IH]; intros a b fires Hr; cbn [drain_sched drain]; [exact I|].
+  set (a0 := match fires with true :: _ => async a | _ => a end).
+  assert (Hr0 : rel a0 b).
+  { unfold a0. destruct fires as [|[|] t]; [exact Hr|apply rel_async; exact Hr|exact Hr]. }
+  destruct (scan a0) as [oa a1] eqn:Ha. destruct (scan b) as [ob b1] eqn:Hb.
+  destruct (rel_scan Hr0 Ha Hb) as [Eo Hr1]. subst ob.
+  destruct oa as [r|].
+  - specialize (IH a1 b1 (tl fires) Hr1).
+    destruct (drain_sched q auto posf mm nr fuel a1 (tl fires)) as [[la a2]|]; destruct (drain scan fuel b1) as [[lb b2]|]; try exact IH.
+    destruct IH as [E Hr2]. split; [congruence|exact Hr2].
+  - split; [reflexivity|exact Hr1].
+Qed.
+
+Lemma rel_refl_open ps s : rel (open q auto posf mm nr ps s) (open q auto posf mm nr ps s).
+Proof.
+  left. split; [reflexivity|]. intro X. destruct (open_spec q auto posf mm nr ps s) as (_ & O2 & _). congruence.
 Qed.
 
 End P3.
